@@ -2,7 +2,7 @@
 """Prints the markdown table of seeded changes (from /verif/seeded/*/meta.json) for DESIGN.md 9.6."""
 import glob, json, os, re
 rows = []
-for d in sorted(glob.glob("/verif/seeded/C??-?")):
+for d in sorted(glob.glob("/verif/seeded/C??-*")):
     m = json.load(open(d + "/meta.json"))
     notes = open(d + "/notes.md").read() if os.path.exists(d + "/notes.md") else ""
     first = ""
